@@ -19,7 +19,7 @@ var modTypes = []uint16{dns.TypeA, dns.TypeAAAA, dns.TypeHTTPS, dns.TypeTXT, dns
 // rewrite / hosts / block-page addresses (documentation ranges, never markers).
 var (
 	rwV4 = []netip.Addr{netip.MustParseAddr("192.0.2.1"), netip.MustParseAddr("192.0.2.2"), netip.MustParseAddr("203.0.113.9")}
-	rwV6 = []netip.Addr{netip.MustParseAddr("2001:db8::1"), netip.MustParseAddr("2001:db8::2")}
+	rwV6 = []netip.Addr{netip.MustParseAddr("2001:db8::1"), netip.MustParseAddr("2001:db8::2"), netip.MustParseAddr("::ffff:192.0.2.66"), netip.IPv6Loopback()}
 	// zero-valued rewrite addresses: they coincide with the null-IP answer.
 	rwZero4, rwZero6 = netip.IPv4Unspecified(), netip.IPv6Unspecified()
 	hsIP             = []netip.Addr{netip.MustParseAddr("0.0.0.0"), netip.MustParseAddr("127.0.0.1"), netip.MustParseAddr("::1"), netip.MustParseAddr("192.0.2.7"), netip.MustParseAddr("::")}
